@@ -200,7 +200,7 @@ def no_sync_requested(ctx, g, origin, v):
 
 def r04_5(ctx, rep):
     aggs = ctx.all_aggregates(r"flush_request::WriteRequest$")
-    rep.floor("R04.5", "WriteRequest{..} constructions", len(aggs), 2)
+    rep.floor("R04.5", "WriteRequest{..} constructions", len(aggs), 1)
     all_true = True
     for b, bi, si, s in aggs:
         rv = s["rv"]
@@ -682,6 +682,23 @@ def write_request_of_send(g, n):
                 if isinstance(x, tuple):
                     walk(x)
     walk(v)
+    if not found:
+        # the request was built somewhere else (a local, a helper, `cond.then(|| request)`): look through to where it comes from
+        def walk2(e, depth=0):
+            if found or depth > 6 or not isinstance(e, tuple) or not e:
+                return
+            if e[0] == "agg" and re.search(r"flush_request::WorkerRequest$", str(e[1])):
+                found.append(e)
+                return
+            if e[0] in ("okval", "var", "ret"):
+                for x in value_sources(g, e):
+                    if x != e:
+                        walk2(x, depth + 1)
+                return
+            for x in e:
+                if isinstance(x, tuple):
+                    walk2(x, depth)
+        walk2(v)
     return found[0] if found else None
 
 
